@@ -414,9 +414,17 @@ pub fn compile(c: &Case) -> Raw {
                     let i = ((*line as u64 * lines.len() as u64) >> 32) as usize;
                     let repl = ["", "    nop", "    lda #", "foo bar", "}", "{", "newlab: rts", "    jmp newlab", ".const added = 3", "    lda undefinedname", ".import * from \"lib.asm\"", "// comment", ".macro rec() { rec() }", "    rec()", ".import * from \"ghost.asm\"", ".segment \"my.code\" { nop }", ".segment \"default\" { .segment \"default\" { nop } }", ".segment \"default\" {"];
                     // (added later, and chosen in a way that leaves the older stored cases what they were)
-                    let spanning = [".const wide = 40 /* größe\n\n    äöüäöüäöüäöü */ * 2", "    lda #1 + /* ü\n*/ 2", "    .byte 1, /* 😀😀\n\n 😀 */ 2"];
+                    let spanning: Vec<String> = vec![
+                        ".const wide = 40 /* größe\n\n    äöüäöüäöüäöü */ * 2".into(),
+                        "    lda #1 + /* ü\n*/ 2".into(),
+                        "    .byte 1, /* 😀😀\n\n 😀 */ 2".into(),
+                        // (nested deeper than anything accepts)
+                        format!("    lda #{}1{}", "(".repeat(400), ")".repeat(400)),
+                        format!("{}nop{}", "{ ".repeat(250), " }".repeat(250)),
+                        format!("    .word {}", vec!["doc1"; 2500].join(" + ")),
+                    ];
                     let v = *variant as usize;
-                    lines[i] = if v % 7 == 3 { spanning[(v / 7) % spanning.len()].to_string() } else { repl[v % repl.len()].to_string() };
+                    lines[i] = if v % 7 == 3 { spanning[(v / 7) % 3 + if (v / 21) % 2 == 0 { 3 } else { 0 }].clone() } else { repl[v % repl.len()].to_string() };
                     let new = lines.join("\n");
                     buffers.insert(f.to_string(), new.clone());
                     changed.insert(f.to_string(), true);
